@@ -528,6 +528,10 @@ Lemma step_rel_regs s s' r r' :
   step_rel s s' -> ragree r r' -> step_rel (set_rg s r) (set_rg s' r').
 Proof. intros [A B C] H. constructor; simpl; auto. Qed.
 
+Lemma step_rel_counter s s' c c' :
+  step_rel s s' -> step_rel (mkSt (rg s) (views s) (scache s) (eviews s) c) (mkSt (rg s') (views s') (scache s') (eviews s') c').
+Proof. intros [A B C]. constructor; auto. Qed.
+
 Lemma run_step_P s s' e e' d p :
   step_rel s s' -> eagree e e' -> env_ok e' ->
   forallb (fun h : handle => fst h) (src_handles p) = true ->
@@ -597,8 +601,9 @@ Proof.
       rewrite (resolve_h_agree e e' a He Ha), (resolve_h_agree e e' b He Hb). reflexivity. }
     rewrite E12.
     rewrite (join_model_agree (rg s) (rg s') d fl fr on2 Hr Hw Hfr).
-    + destruct (join_model g (rg s') d fl fr on2) as [f|] eqn:Ej; simpl; auto.
-      split; [|split; [|split]]; auto. eapply join_model_ok; eauto.
+    + cbv zeta. destruct (join_model g (rg s') d fl fr on2) as [f|] eqn:Ej; cbn [fst snd]; four; auto;
+        try (apply step_rel_counter; auto); try exact I.
+      cbn [bind_ok]. eapply join_model_ok; eauto.
     + intros ca cb E. unfold on2 in E. destruct on as [a b|cs]; [|discriminate].
       rewrite forallb_app in Hon. apply andb_true_iff in Hon as [Ha Hb].
       destruct (resolve_h e' a) as [ca0|] eqn:Ea; [|discriminate].
@@ -638,7 +643,8 @@ Proof.
     constructor; cbn [rg views scache]; auto. apply ragree_known; auto.
   - (* bad *)
     rewrite andb_true_r in Hh. unfold run_step. rewrite (get_agree e e' src He Hh).
-    destruct k; destruct (get e' src); cbn [fst snd]; four; auto; try exact I.
+    destruct k; destruct (get e' src); try destruct (wrap g (op_from g) f); cbn [fst snd]; four; auto; try exact I.
+    all: try (apply step_rel_counter; auto).
     all: try (apply step_rel_regs; auto).
     all: try (apply ragree_alias, ragree_seq; auto).
     all: try (apply ragree_seq, ragree_branch; auto).
